@@ -13,14 +13,14 @@ def _funcs(p, mods):
 
 def analyse(ctx: CheckContext, p: Program):
     r = Resolver(p)
-    generic_rules(ctx, p, r, "C03")
-    bk.check_wrap(ctx, p, r, _funcs(p, ("OpenPinch.analysis.utility_targeting", "OpenPinch.analysis.gcc_manipulation",
+    ctx.guard(generic_rules, ctx, p, r, "C03")
+    ctx.guard(bk.check_wrap, ctx, p, r, _funcs(p, ("OpenPinch.analysis.utility_targeting", "OpenPinch.analysis.gcc_manipulation",
                                         "OpenPinch.analysis.indirect_integration_entry", "OpenPinch.analysis.direct_integration_entry")))
-    bk.check_assignment_booking(ctx, p, r)
-    bk.check_zone_sum(ctx, p, r)
-    bk.check_default_filter(ctx, p, r)
-    bk.check_zero_seeded_utilities(ctx, p, r)
-    bk.check_name_match(ctx, p, r, _funcs(p, ("OpenPinch.analysis.utility_targeting", "OpenPinch.analysis.indirect_integration_entry")))
+    ctx.guard(bk.check_assignment_booking, ctx, p, r)
+    ctx.guard(bk.check_zone_sum, ctx, p, r)
+    ctx.guard(bk.check_default_filter, ctx, p, r)
+    ctx.guard(bk.check_zero_seeded_utilities, ctx, p, r)
+    ctx.guard(bk.check_name_match, ctx, p, r, _funcs(p, ("OpenPinch.analysis.utility_targeting", "OpenPinch.analysis.indirect_integration_entry")))
 
 
 def run(ctx: CheckContext):
